@@ -473,6 +473,24 @@ theorem drain_spec (to : Nat) : ∀ (fuel : Nat) (rs : Ranges), Inv rs → (clea
           · rw [hhs, List.filter_append, hfr.1, List.append_nil, hget]
           · rw [heights_cons, hhs, List.filter_append, hfr.2, hrem]
 
+theorem contig_pairwise : ∀ {s : Nat} {xs : List Nat}, Contig s xs → xs.Pairwise (· < ·)
+  | _, [], _ => List.Pairwise.nil
+  | s, y :: ys, h => by
+    obtain ⟨rfl, h'⟩ := h
+    rw [List.pairwise_cons]
+    exact ⟨fun x hx => by have := (contig_mem h' x).1 hx; omega, contig_pairwise h'⟩
+
+/-- under the invariant the cached heights are strictly ascending -/
+theorem heights_sorted : ∀ {rs : Ranges}, Inv rs → (heights rs).Pairwise (· < ·)
+  | [], _ => by simp [heights]
+  | r :: rest, hi => by
+    have hrest : Inv rest := ⟨fun a ha => hi.wf a (by simp [ha]), (List.pairwise_cons.1 hi.sep).2, (List.pairwise_cons.1 hi.ep).2⟩
+    rw [heights_cons, List.pairwise_append]
+    refine ⟨contig_pairwise (hi.wf r (by simp)), heights_sorted hrest, ?_⟩
+    intro x hx y hy
+    obtain ⟨b, hb, hyb⟩ := List.mem_flatMap.1 hy
+    have := (List.pairwise_cons.1 hi.sep).1 b hb x hx y hyb; omega
+
 theorem prune_inv {rs : Ranges} (e : Nat) (hi : Inv rs) : Inv (prune rs e) := by
   have hboth : rs.Pairwise (fun a b => Sep a b ∧ EP a b) := hi.sep.and hi.ep
   refine ⟨?_, ?_, ?_⟩
